@@ -9,7 +9,7 @@ from hypothesis import strategies as st
 
 from conda_content_trust import authentication as A, common as C, root_signing as RS, signing as S
 
-from vlib import gen_envelope as GE, gen_json as G, gen_metadata as GM, gen_repodata as GR, gpgstub, keys, ref_grammar as g, \
+from vlib import configrun, gen_envelope as GE, gen_json as G, gen_metadata as GM, gen_repodata as GR, gpgstub, keys, ref_grammar as g, \
     ref_verify as RV
 from vlib.ref_canon import canon, jeq
 from vlib.runner import Unit, Violation
@@ -214,7 +214,29 @@ def check_history(case):
     return {"nontrivial": nontrivial, "labels": sorted(labs), "count": {"steps": len(case["ops"]), "sign_steps": sign_steps}}
 
 
+@st.composite
+def _persist_cases(draw):
+    docs = draw(st.lists(st.one_of(G.payloads, st.builds(GM.wrap, G.payloads)), min_size=2, max_size=6))
+    return {"docs": docs, "config": draw(configrun.configs)}
+
+
+def check_persist_config(case):
+    import hashlib
+    got = configrun.run_child("persist", case["docs"], case["config"])
+    if not isinstance(got, list):
+        raise Violation("child interpreter failed under %r: %s" % (case["config"], got.get("stderr", "")[-300:]), bucket="child failed")
+    for i, (doc, (raw, back)) in enumerate(zip(case["docs"], got)):
+        want = hashlib.sha256(canon(doc)).hexdigest()
+        if raw != want or back != want:
+            raise Violation("under configuration %r, writing document %d over an existing file and loading it back gives %s / %s instead "
+                            "of the canonical bytes" % ({k: v for k, v in case["config"].items() if v}, i, raw[:24], back[:24]),
+                            bucket="persistence depends on configuration")
+    return {"nontrivial": True, "labels": ["opt=%s" % case["config"].get("PYTHONOPTIMIZE"), "warnings=%s" % case["config"].get("PYTHONWARNINGS")]}
+
+
 UNITS = [
+    Unit("config", check_persist_config, strategy=_persist_cases, quick=24, thorough=400, shards_quick=8, shrink=False,
+         doc="write over an existing file + load in fresh interpreters under drawn configurations (-O, warnings, locale, encoding)"),
     Unit("history", check_history, strategy=_histories, quick=400, thorough=15000,
          essential=["sign_raw", "sign_gpg", "rewrite_sloppy", "load_mutate_load", "two-signers", "shrinking-write"],
          doc="write / load / sign / re-spell histories on one file with byte, value, entry-preservation and verdict invariants"),
